@@ -76,8 +76,9 @@ func runOverlayTest(repo, testFile, testName string, race bool, timeout time.Dur
 var knownRE = regexp.MustCompile(`^(.*)::(Test\w+)$`)
 
 // cmdReplay: ./check --replay <path>
-//   <file>::<TestName>   run a known-finding replay test; exit 1 if the defect reproduces
-//   <record>.json        show a recorded violation and re-run its generated test, if any
+//
+//	<file>::<TestName>   run a known-finding replay test; exit 1 if the defect reproduces
+//	<record>.json        show a recorded violation and re-run its generated test, if any
 func cmdReplay(repo, path string) int {
 	if m := knownRE.FindStringSubmatch(path); m != nil {
 		file := m[1]
